@@ -32,9 +32,15 @@ pub struct Call {
 struct Fake {
     closed: bool,
     never: bool,
+    /// the amount named in the verdict; the runner must pass exactly it to `wait()`
+    expected: usize,
+    shared: Arc<Shared>,
 }
 impl StreamWait for Fake {
-    fn wait(&self, _need: usize) -> bool {
+    fn wait(&self, need: usize) -> bool {
+        if need != self.expected {
+            self.shared.wrong_need.fetch_add(1, Ordering::SeqCst);
+        }
         self.never
     }
     fn closed(&self) -> bool {
@@ -47,6 +53,8 @@ pub struct Shared {
     log: Mutex<Vec<(usize, bool)>>,
     calls: AtomicUsize,
     dropped: AtomicUsize,
+    /// `wait(need)` calls whose amount differs from the verdict's
+    wrong_need: AtomicUsize,
 }
 
 pub struct Scripted {
@@ -64,6 +72,7 @@ pub struct Scripted {
     cancel_global: Option<usize>,
     cancel_own: Option<usize>,
     private: (rustradio::stream::WriteStream<u8>, rustradio::stream::ReadStream<u8>),
+    private2: (rustradio::stream::WriteStream<u8>, rustradio::stream::ReadStream<u8>),
 }
 
 impl BlockName for Scripted {
@@ -99,11 +108,16 @@ impl Block for Scripted {
         self.pos += 1;
         self.last_eof = c.eof_after;
         if c.moved {
-            let mut wb = self.private.0.write_buf()?;
-            wb.slice()[0] = 1;
-            wb.produce(1, &[]);
-            let (rb, _) = self.private.1.read_buf()?;
-            rb.consume(1);
+            // stream activity of one kind only, on streams that are neither empty nor full before
+            // and after: a commit into a non-empty stream, or a consume that leaves samples behind
+            if self.pos % 2 == 0 {
+                let mut wb = self.private.0.write_buf()?;
+                wb.slice()[0] = 1;
+                wb.produce(1, &[]);
+            } else {
+                let (rb, _) = self.private2.1.read_buf()?;
+                rb.consume(1);
+            }
         }
         Ok(match c.v {
             V::Again => BlockRet::Again,
@@ -112,7 +126,8 @@ impl Block for Scripted {
             V::Stream { closed, never } => {
                 self.fake.closed = closed;
                 self.fake.never = never;
-                BlockRet::WaitForStream(&self.fake, 1)
+                self.fake.expected = 2 + self.pos % 5;
+                BlockRet::WaitForStream(&self.fake, 2 + self.pos % 5)
             }
             V::Eof => BlockRet::EOF,
             V::Err => return Err(rustradio::Error::msg(format!("scripted failure in block {}", self.idx))),
@@ -166,6 +181,7 @@ fn build(scripts: &[Vec<Call>], forever: &[bool], token: &CancellationToken, can
         log: Mutex::new(Vec::new()),
         calls: AtomicUsize::new(0),
         dropped: AtomicUsize::new(0),
+        wrong_need: AtomicUsize::new(0),
     });
     let blocks = scripts
         .iter()
@@ -177,15 +193,33 @@ fn build(scripts: &[Vec<Call>], forever: &[bool], token: &CancellationToken, can
             forever: forever.get(i).copied().unwrap_or(false),
             pos: 0,
             last_eof: false,
-            fake: Fake { closed: false, never: false },
+            fake: Fake { closed: false, never: false, expected: 0, shared: shared.clone() },
             shared: shared.clone(),
             token: token.clone(),
             cancel_global,
             cancel_own: cancel_own.get(i).copied().flatten(),
             private: {
+                // never empty: one sample stays in it
                 rustradio::verif::set_stream_size(4096);
                 let p = rustradio::stream::new_stream::<u8>();
                 rustradio::verif::set_stream_size(0);
+                {
+                    let mut wb = p.0.write_buf().unwrap();
+                    wb.slice()[0] = 1;
+                    wb.produce(1, &[]);
+                }
+                p
+            },
+            private2: {
+                // pre-filled: consume-only moves never drain it
+                rustradio::verif::set_stream_size(4096);
+                let p = rustradio::stream::new_stream::<u8>();
+                rustradio::verif::set_stream_size(0);
+                {
+                    let mut wb = p.0.write_buf().unwrap();
+                    let n = wb.len().min(2000);
+                    wb.produce(n, &[]);
+                }
                 p
             },
         })
@@ -235,7 +269,9 @@ fn st_case(rng: &mut Rng, max_blocks: usize, max_len: usize) -> String {
     for b in built.blocks {
         g.add(Box::new(b));
     }
+    let _wd = deadline(60, format!("Graph::run {}", req_of("st", cancel, &scripts)));
     let res = quiet(|| g.run());
+    drop(_wd);
     let log: Vec<String> = shared.log.lock().unwrap().iter().map(|(b, _)| b.to_string()).collect();
     format!("{}\t{} log={}", req_of("st", cancel, &scripts), result_str(&res), log.join(","))
 }
@@ -258,7 +294,9 @@ fn mt_case(rng: &mut Rng, max_blocks: usize, max_len: usize) -> String {
     for b in built.blocks {
         g.add(Box::new(b));
     }
+    let _wd = deadline(60, format!("MTGraph::run {}", req_of("mt", None, &scripts)));
     let res = quiet(|| g.run());
+    drop(_wd);
     let mut counts = vec![0usize; nb];
     for (b, _) in shared.log.lock().unwrap().iter() {
         counts[*b] += 1;
@@ -269,12 +307,14 @@ fn mt_case(rng: &mut Rng, max_blocks: usize, max_len: usize) -> String {
         .enumerate()
         .map(|(i, c)| if matches!(res, Ok(Err(_))) && failing != Some(i) { "*".to_string() } else { c.to_string() })
         .collect();
+    let wrong = shared.wrong_need.load(Ordering::SeqCst);
     format!(
-        "{}\t{} calls={} finished={}",
+        "{}\t{} calls={} finished={}{}",
         req_of("mt", None, &scripts),
         result_str(&res),
         counts.join(","),
-        dropped == nb
+        dropped == nb,
+        if wrong > 0 { format!(" WRONG-NEED: {wrong} wait(need) calls with an amount other than the verdict's") } else { String::new() }
     )
 }
 
@@ -295,6 +335,7 @@ fn cancel_case(rng: &mut Rng, mt: bool, idx: usize) -> String {
     let forever: Vec<bool> = (0..nb).map(|i| i == 0 || rng.chance(1, 2)).collect();
     let delay_us = rng.range(0, 3000) as u64;
     let own = if rng.chance(1, 2) { Some(rng.range(1, 50)) } else { None };
+    let _wd = deadline(60, format!("cancel {} #{idx} blocks={nb} delay_us={delay_us} own={own:?}: run() after cancel()", if mt { "mt" } else { "st" }));
     let (res, log, dropped) = if mt {
         let mut g = MTGraph::new();
         let token = g.cancel_token();
@@ -374,7 +415,9 @@ fn mt_multi_err(rng: &mut Rng, idx: usize) -> String {
     for b in built.blocks {
         g.add(Box::new(b));
     }
+    let _wd = deadline(60, format!("mterr #{idx} {} failing={failing:?} forever={forever:?}: MTGraph::run with a failing block", req_of("mt", None, &scripts)));
     let res = quiet(|| g.run());
+    drop(_wd);
     let r = result_str(&res);
     let ok = failing.iter().any(|f| r == format!("err {f}")) && shared.dropped.load(Ordering::SeqCst) == nb;
     format!(
